@@ -7,7 +7,8 @@ RULE = ('random operation sequences over 1–5 traced functions (two sharing a _
         'assorted args/kwargs/return values compared by identity) with kfac.tracing.time replaced by a '
         'scripted dyadic clock, interleaved get_trace(average, max_history) queries and clear_trace(); '
         'every query result compared exactly with the Lean table model; non-trivial = ≥3 calls and ≥1 query '
-        'with a window smaller than the history')
+        'with a window smaller than the history'
+        "; re-entrant call chains (recursion through the same or other traced functions) sent to the model's clock/stack machine as they are")
 TRUSTED = [
     'Lean 4.33 kernel; axioms audited ⊆ {propext, Classical.choice, Quot.sound}',
     'hand-written model KV.Trace tied to kfac/tracing.py by this correspondence',
